@@ -1,5 +1,6 @@
 """C07 bounded companion: shipped rewriters over enumerated + inferred types: no exception, widening relative to the
 observed values, trigger clauses."""
+import typing
 import random
 from typing import Any, Dict, List, Union
 
@@ -136,6 +137,13 @@ def run(ctx):
                 r = rw.rewrite(t)
             except Exception as e:
                 H.violation("monkeytype.typing:%s" % name, "rewrite-raises:%s:%s:%s" % (name, infer.short(t), type(e).__name__), "%s.rewrite raises %r" % (name, e), {"type": repr(t)}, repr(e))
+                continue
+            try:
+                if r is not Ellipsis:
+                    typing.List[r]          # the result must itself be usable as a type (typing.Generic / typing.Protocol, for one, are not)
+            except TypeError as e:
+                H.violation("monkeytype.typing:%s" % name, "result-not-a-type:%s:%s:%s" % (name, infer.short(t), infer.short(r)), "%s returns something that is not valid as a type argument: %r" % (name, e),
+                            {"type": repr(t)}, {"result": repr(r)})
                 continue
             if name.startswith("RemoveEmptyContainers") or name == "DEFAULT_REWRITER":
                 # C[Any] stands for an observed *empty* container: witnesses of a dropped C[Any] that are non-empty are not observed values
